@@ -297,6 +297,24 @@ func run(c Case) ([]vk.Violation, vk.Info) {
 	if n != len(m.keys) || it.Len() != len(m.keys) {
 		bad("iter_len", "iterated %d (Len %d), model %d", n, it.Len(), len(m.keys))
 	}
+	// Iterator.ToSlice is documented to start from the beginning whatever the
+	// position of the iterator is (fresh, part-way, exhausted).
+	for _, adv := range []int{0, 1, len(m.keys) / 2, len(m.keys), len(m.keys) + 1} {
+		it2 := s.Iter()
+		for k := 0; k < adv; k++ {
+			it2.Next()
+		}
+		if ts := it2.ToSlice(); !sameStrings(renderSlice(ts), want) {
+			bad("iterator_toslice", "Iterator.ToSlice() after %d Next() calls = %v, model %v", adv, renderSlice(ts), want)
+		}
+		if it2.Len() != len(m.keys) {
+			bad("iter_len", "Iterator.Len() after %d Next() calls = %d, model %d", adv, it2.Len(), len(m.keys))
+		}
+	}
+	// a custom encoder that peeks before it serialises sees the same contents
+	if enc := s.Encoded(peekEncoder{}); enc != strings.Join(want, ";") {
+		bad("custom_encoder", "Encoded(custom encoder) = %q, contents %q", enc, strings.Join(want, ";"))
+	}
 
 	// --- identity: self, derived list, other ---
 	selfEq := s.Equals(&s) && s.Equivalent() == s.Equivalent()
@@ -481,6 +499,18 @@ func run(c Case) ([]vk.Violation, vk.Info) {
 	info.ClassIf(!be && !ge, "other_differs")
 	info.ClassIf(be != ge, "other_equal_under_one_notion_only")
 	return vs, info
+}
+
+// peekEncoder is a user-defined attribute.Encoder: it looks at the first
+// attribute (Next) and then renders iter.ToSlice().
+type peekEncoder struct{}
+
+var peekEncoderID = attribute.NewEncoderID()
+
+func (peekEncoder) ID() attribute.EncoderID { return peekEncoderID }
+func (peekEncoder) Encode(it attribute.Iterator) string {
+	it.Next()
+	return strings.Join(renderSlice(it.ToSlice()), ";")
 }
 
 func TestSetModel(t *testing.T) {
